@@ -208,3 +208,19 @@ def emptied_before(P, fn, ev, cache_var, field):
                 return True
         return False
     return fn.path_exists(None, lambda q: q is ev, lambda q: direct(q) or via_callee(q))
+
+
+def expand_locals(fn, x, depth=2, _cache=None):
+    """x with every single-assignment local (declared once with an initialiser, never assigned again) replaced by its initialiser:
+    `const int n = (int)v.size(); ... i == n-1` is compared as `i == (int)v.size()-1`.  Loop induction variables (assigned) are kept."""
+    if depth <= 0 or not isinstance(x, list):
+        return x
+    if _cache is None:
+        _cache = {}
+        assigned = {var_of(e["lhs"]) for _, _, e in fn.events(lambda e: e["k"] == "assign")}
+        for _, _, d in fn.events(lambda d: d["k"] == "decl"):
+            if d.get("init") is not None and d["var"] not in assigned:
+                _cache.setdefault(d["var"], []).append(d["init"])
+    if len(x) == 2 and x[0] == "var" and len(_cache.get(x[1], ())) == 1:
+        return expand_locals(fn, _cache[x[1]][0], depth - 1, _cache)
+    return [expand_locals(fn, y, depth, _cache) if isinstance(y, list) else y for y in x]
